@@ -327,6 +327,8 @@ fn main() {
             let o = gen::GenOpts { max_objects: 5, max_symbols: 16, sources: false, realistic_every: 0, cenc: false, transfers_max: 5, ..Default::default() };
             let (mut spec, mut objs) = gen::gen_session(&mut rng, &o);
             spec.fdt_carousel = CarouselSpec::DelayMs(*rng.pick(&[500u64, 2000]));
+            // short FDT lifetimes (renewal decisions at the same instant as the publication must not loop)
+            spec.fdt_duration_s = *rng.pick(&[1u64, 1, 2, 5, 3600, 3600]);
             let mut script: Vec<(When, Op)> = vec![];
             let mut pk = 0usize;
             for (k, ob) in objs.iter_mut().enumerate() {
@@ -382,6 +384,11 @@ fn main() {
             // the transfer-count verdicts need the drain discipline (single reads may not reach the end)
             if !opts.drain {
                 opts.instants = (0..4000u64).map(|k| k * 20).collect();
+            }
+            // poll instants at an arbitrary phase of the second (Expires is in whole seconds)
+            let phase = rng.below(1000);
+            for x in opts.instants.iter_mut() {
+                *x += phase;
             }
             run_case(&spec, &objs, &script, &opts, &shape, false, &mut cr);
             cr
